@@ -364,8 +364,12 @@ def _run(eng: int, ops: List[str], forms: List[Any]) -> Optional[str]:
         got = sorted(_key_of(i) for i in it._actors)
         must = sorted(("auto" if a["auto"] else a["key"]) for a in live if not a["fin"])
         may = sorted(("auto" if a["auto"] else a["key"]) for a in live)
-        if got != must and got != may:
-            return f"children map holds {sorted(it._actors)}, reference expects {must}"
+        from collections import Counter
+
+        cg, cmust, cmay = Counter(got), Counter(must), Counter(may)
+        # every live unfinished child must be there; a FINISHED child may or may not still be registered (each one independently)
+        if (cmust - cg) or (cg - cmay):
+            return f"children map holds {sorted(it._actors)}, reference expects {must}" + (f" (optionally also the finished {sorted((cmay - cmust).elements())})" if cmay != cmust else "")
         for i, a in it._actors.items():
             if a.status != "running" and _key_of(i) in must:
                 return f"registered child {a.id} has status {a.status}"
